@@ -1,6 +1,7 @@
 /- C10: decoding allocates in proportion to the input, never to a claimed length: theorems about the cost-instrumented
    decoder (which projects onto the plain decoder) at Gen.env, for every struct-size function, fuel, type and byte string. -/
-import FinProto.Obl.Side
+import FinProto.Obl.SElems
+import FinProto.Obl.SWidths
 import FinProto.Props.CostProofs
 namespace FinProto.Obl
 open FinProto
